@@ -51,14 +51,15 @@ def ans_spec(a, toklife):
     if a == "okRotate":
         return dict(base, rotate=True)
     if a == "failBefore":
-        ans_spec.n = getattr(ans_spec, "n", 0) + 1
-        return {"mode": "fail-before" if ans_spec.n % 2 else "drop"}   # HTTP 500 / connection closed without an answer
+        return {"mode": "drop" if ans_spec.drop else "fail-before"}   # connection closed without an answer / HTTP 500
     if a == "failAfter":
         return dict(base, mode="fail-after", rotate=True)
     if a == "badToken":
         return dict(base, id="audForeign")
     raise ValueError(a)
 
+
+ans_spec.drop = False
 
 F1 = {"name": "f1", "accessFwd": True, "logout": True}
 F2 = {"name": "f2", "accessFwd": True, "logout": True, "prefix": "two"}
@@ -67,6 +68,9 @@ F2 = {"name": "f2", "accessFwd": True, "logout": True, "prefix": "two"}
 def conv(model, sid, toklife, filters=None, store="memory", probes=(), tags=()):
     """Convert a behaviour printed by TLC (AuthFlow!hist) into a driver scenario."""
     steps = []
+    ans_spec.drop = bool(model.get("_drop"))
+    if ans_spec.drop:
+        sid += "/drop"
     for s in model["steps"]:
         op = s["op"]
         if op == "start":
@@ -233,7 +237,14 @@ def sample(W, items, n):
 
 def export(W, name, **over):
     out, viol = W.tlc_exhaustive("AuthFlowScn", scn_cfg(**over), name, workers=1)
-    return W.scenarios_from(out)
+    ms = W.scenarios_from(out)
+    # a failing token endpoint comes in two renderings: HTTP 500, and a connection closed without an answer
+    res = []
+    for m in ms:
+        res.append(m)
+        if any(s.get("ans") == "failBefore" for s in m["steps"]):
+            res.append(dict(m, _drop=True))
+    return res
 
 
 # ---------------------------------------------------------------------------------------------
@@ -487,6 +498,11 @@ def c11(W, replay=None):
     scen = []
     if not replay:
         scen = family(W, "C11")
+        # a refresh whose result fails validation, racing with / followed by another check on the same session
+        ms = export(W, "c11-failed-refresh-race", Prepared='"expired"', Target=1, MaxApps=2, MaxInFlight=2, MaxFaults=1,
+                    Checks="{1,2,3,4,5}", MaxSid=4, MaxTok=5, TokLife=1, Kinds='{"app"}')
+        ms = sample(W, [m for m in ms if any(s.get("ans") == "badToken" for s in m["steps"])], 1000 if W.tier == "thorough" else 80)
+        scen += [conv(m, "c11/race/%d" % i, 1, store=("memory", "redis")[i % 2], probes=finish_all(m) + [PROBE_APP]) for i, m in enumerate(ms)]
         if W.tier == "thorough":
             scen += random_histories(W, 500, long=True)
     return sys_pipeline("C11", W, scen, None, ASSUME_SYS + ["histories are sequential (the property quantifies over histories, not schedules)"], replay=replay)
